@@ -1,133 +1,52 @@
 /-
   C10 — Every read operation on a parsed document is total.
-  (First part: operations that need nothing from the tree invariant, and the local conditions
-  `ApiSafe` under which the link-following primitives cannot panic. `WF → ApiSafe` and the
-  iterators are in `Rox.Props.C10Tree`.)
+  `Rox.Props.C10Base`: operations that need nothing from the tree, and the link-following
+  primitives. This file: every accessor and iterator, for every parsed document.
 -/
-import Rox.Props.C14
-import Rox.Spec.Tree
-import Rox.Lemmas.TreeApi
+import Rox.Props.C10Base
+import Rox.Lemmas.ApiSafe2
+import Rox.Generated
+import Rox.Props.C01
 
 namespace Rox.Props.C10
 open Rox Rox.Api Rox.Spec Rox.Lemmas
 
-/-- `text_pos_at` returns normally for every byte offset — past the end, and inside a multi-byte
-character included (D3 repair). -/
-theorem textPosAt_never_panics (txt : Bytes) (p : Nat) : ∃ tp, textPosAt txt p = .ok tp :=
-  ⟨_, C14.textPosAt_total txt p⟩
+/-- The namespace and attribute tables of every parsed document are consistent: every element's
+attribute and namespace ranges are valid slices of the tables, every stored namespace index points
+into the table (`NsOk`). -/
+theorem parsed_tables_ok (txt : Bytes) (hv : ValidUtf8 txt) (opt : Opt)
+    (hlim : opt.nodesLimit ≤ 4294967295) (d : Doc) (h : parse Generated.tables txt opt = .ok d) :
+    ∃ st, NsOk d st := by
+  have hs := parseCtx_spec Generated.tables C01.generated_tables_ok txt hv opt hlim
+  unfold parse at h
+  rw [Res.bind_eq_ok] at h
+  obtain ⟨c, hc, h⟩ := h
+  simp only [Res.pure_eq, Res.ok.injEq] at h
+  subst h
+  exact ⟨_, (hs.post c hc).2.1⟩
 
-/-- `get_node` is total for every id that `NodeId::new` accepts (everything below `u32::MAX`),
-`u32::MAX - 1` included. -/
-theorem getNode_total (d : Doc) (k : Nat) (h : k < 4294967295) :
-    ∃ r, (do let id ← nodeIdNew k; pure (getNode d id) : Res (Option Nat)) = .ok r := by
-  simp [nodeIdNew, h]
-
-/-- The slice-backed iterators are total functions of their window (no index is ever computed
-outside it). -/
-theorem sliceIt_items_in_window (it : SliceIt) :
-    (∀ x, it.next.1 = some x → it.lo ≤ x ∧ x < it.hi) ∧
-    (∀ x, it.nextBack.1 = some x → it.lo ≤ x ∧ x < it.hi) ∧
-    (∀ n x, (it.nth n).1 = some x → it.lo ≤ x ∧ x < it.hi) := by
-  refine ⟨?_, ?_, ?_⟩
-  · intro x h; unfold SliceIt.next at h; split at h <;> simp at h; omega
-  · intro x h; unfold SliceIt.nextBack at h; split at h <;> simp at h; omega
-  · intro n x h; unfold SliceIt.nth at h; split at h <;> simp at h; omega
-
-/-- Local safety conditions on an arena: every stored link is a valid index, a node with children
-is followed by its first child, the target of `next_subtree` has a previous sibling, element
-ranges lie inside the attribute / namespace tables and every namespace index is valid. -/
-structure ApiSafe (d : Doc) : Prop where
-  links : ∀ i n, d.nodes[i]? = some n →
-    (∀ j, n.parent = some j → j < d.nodes.size) ∧
-    (∀ j, n.prevSibling = some j → j < d.nodes.size) ∧
-    (∀ j, n.lastChild = some j → j < d.nodes.size ∧ i + 1 < d.nodes.size) ∧
-    (∀ j, n.nextSubtree = some j → ∃ m, d.nodes[j]? = some m ∧ m.prevSibling.isSome)
-  small : d.nodes.size ≤ 4294967295
-
-/-- Under `ApiSafe` none of the link-following accessors can reach a panic site. -/
-theorem primitives_no_panic (d : Doc) (hs : ApiSafe d) (i : Nat) (hi : i < d.nodes.size) :
-    (∃ r, parent d i = .ok r) ∧ (∃ r, prevSibling d i = .ok r) ∧ (∃ r, lastChild d i = .ok r) ∧
-    (∃ r, firstChild d i = .ok r) ∧ (∃ r, nextSibling d i = .ok r) ∧
-    (∃ r, hasChildren d i = .ok r) ∧ (∃ r, hasSiblings d i = .ok r) := by
-  have hn : d.nodes[i]? = some d.nodes[i] := by simp [hi]
-  obtain ⟨hp, hv, hl, hx⟩ := hs.links i _ hn
-  have hpar : ∃ r, parent d i = .ok r := by
-    unfold parent getNodeUnwrap follow
-    simp only [hn, Res.bind_ok]
-    cases h : d.nodes[i].parent with
-    | none => exact ⟨_, rfl⟩
-    | some j => simp [hp j h]
-  have hprev : ∃ r, prevSibling d i = .ok r := by
-    unfold prevSibling getNodeUnwrap follow
-    simp only [hn, Res.bind_ok]
-    cases h : d.nodes[i].prevSibling with
-    | none => exact ⟨_, rfl⟩
-    | some j => simp [hv j h]
-  have hlast : ∃ r, lastChild d i = .ok r := by
-    unfold lastChild getNodeUnwrap follow
-    simp only [hn, Res.bind_ok]
-    cases h : d.nodes[i].lastChild with
-    | none => exact ⟨_, rfl⟩
-    | some j => simp [(hl j h).1]
-  have hfirst : ∃ r, firstChild d i = .ok r := by
-    unfold firstChild getNodeUnwrap nodeIdNew
-    simp only [hn, Res.bind_ok]
-    cases h : d.nodes[i].lastChild with
-    | none => exact ⟨_, rfl⟩
-    | some j =>
-      have := (hl j h).2
-      have h2 : i + 1 < 4294967295 := by have := hs.small; omega
-      simp [h2, this]
-  have hnext : ∃ r, nextSibling d i = .ok r := by
-    unfold nextSibling getNodeUnwrap
-    simp only [hn, Res.bind_ok]
-    cases h : d.nodes[i].nextSubtree with
-    | none => exact ⟨_, rfl⟩
-    | some j =>
-      obtain ⟨m, hm, hps⟩ := hx j h
-      simp only [hm, Res.bind_ok]
-      cases hmp : m.prevSibling with
-      | none => simp [hmp] at hps
-      | some p => exact ⟨_, rfl⟩
-  refine ⟨hpar, hprev, hlast, hfirst, hnext, ?_, ?_⟩
-  · unfold hasChildren getNodeUnwrap; simp [hn]
-  · unfold hasSiblings getNodeUnwrap
-    simp only [hn, Res.bind_ok]
-    split
-    · exact ⟨_, rfl⟩
-    · obtain ⟨r, hr⟩ := hnext
-      simp [hr]
-
-/-- Executable form of `ApiSafe` (evaluated on the implementation's arena). -/
-def apiSafeB (d : Doc) : Bool :=
-  decide (d.nodes.size ≤ 4294967295) &&
-  (List.range d.nodes.size).all fun i =>
-    match d.nodes[i]? with
-    | none => true
-    | some n =>
-      (match n.parent with | some j => decide (j < d.nodes.size) | none => true) &&
-      (match n.prevSibling with | some j => decide (j < d.nodes.size) | none => true) &&
-      (match n.lastChild with | some j => decide (j < d.nodes.size) && decide (i + 1 < d.nodes.size) | none => true) &&
-      (match n.nextSubtree with
-        | some j => (match d.nodes[j]? with | some m => m.prevSibling.isSome | none => false)
-        | none => true)
-
-/-- **Every parsed document is API-safe** (all inputs; `nodes_limit` is a `u32`): the stored links
-of the arena the parser returns satisfy everything the link-following accessors rely on, so none
-of `parent`, `prev_sibling`, `next_sibling` (its `expect` included), `first_child`, `last_child`,
-`has_children`, `has_siblings` can panic on any node of any parsed document. -/
-theorem parsed_api_safe (T : Tables) (txt : Bytes) (opt : Opt) (d : Doc)
-    (hlim : opt.nodesLimit ≤ 4294967295) (h : parse T txt opt = .ok d) : ApiSafe d := by
-  have hw := parse_linkWF T txt opt d h
-  refine ⟨fun i n hn => links_in_range hw i n hn, ?_⟩
-  have := parse_size_le_limit T txt opt d h
-  omega
-
-theorem parsed_primitives_no_panic (T : Tables) (txt : Bytes) (opt : Opt) (d : Doc)
-    (hlim : opt.nodesLimit ≤ 4294967295) (h : parse T txt opt = .ok d) (i : Nat) (hi : i < d.nodes.size) :
-    (∃ r, parent d i = .ok r) ∧ (∃ r, prevSibling d i = .ok r) ∧ (∃ r, lastChild d i = .ok r) ∧
-    (∃ r, firstChild d i = .ok r) ∧ (∃ r, nextSibling d i = .ok r) ∧
-    (∃ r, hasChildren d i = .ok r) ∧ (∃ r, hasSiblings d i = .ok r) :=
-  primitives_no_panic d (parsed_api_safe T txt opt d hlim h) i hi
+/-- **Every accessor is total on every node of every parsed document** (all valid UTF-8 inputs, all
+options): none of `attributes`, `namespaces`, `tag_name`, `has_tag_name`, `attribute`,
+`has_attribute`, `default_namespace`, `lookup_prefix`, `lookup_namespace_uri`, `text`, `tail`,
+`descendants`, the axis iterators (`ancestors`, `prev_siblings`, `next_siblings`, `first_children`,
+`last_children` — they end within `nodes.len()` steps), `*_element` searches, `children` in either
+direction can panic or fail to terminate. -/
+theorem parsed_api_total (txt : Bytes) (hv : ValidUtf8 txt) (opt : Opt)
+    (hlim : opt.nodesLimit ≤ 4294967295) (d : Doc) (h : parse Generated.tables txt opt = .ok d)
+    (i : Nat) (hi : i < d.nodes.size) (ns : Option Bytes) (name uri : Bytes) (pfx : Option Bytes) (a : Axis) :
+    (Total (attributes d i) ∧ Total (namespaces d i) ∧ Total (namespaceList d i) ∧
+      Total (tagName d i) ∧ Total (hasTagName d i ns name) ∧ Total (attributeNode d i ns name) ∧
+      Total (attributeValue d i ns name) ∧ Total (hasAttribute d i ns name) ∧
+      Total (defaultNamespace d i) ∧ Total (lookupPrefix d i uri) ∧ Total (lookupNamespaceUri d i pfx)) ∧
+    (Total (textStorage d i) ∧ Total (tailStorage d i) ∧ Total (descendants d i) ∧
+      Total (axisList d a (fuelN d) (some i)) ∧ Total (axisElement d a i) ∧
+      Total (firstElementChild d i) ∧ Total (lastElementChild d i) ∧
+      (∃ it, children d i = .ok it ∧ Total (childrenList d (fuelN d) it) ∧
+        Total (childrenRevList d (fuelN d) it))) := by
+  obtain ⟨st, hn⟩ := parsed_tables_ok txt hv opt hlim d h
+  have hw := parse_linkWF Generated.tables txt opt d h
+  have hsz : d.nodes.size ≤ 4294967295 := by
+    have := parse_size_le_limit Generated.tables txt opt d h; omega
+  exact ⟨api_tables_total d st hn i hi ns name uri pfx, api_links_total d hw hsz i hi a⟩
 
 end Rox.Props.C10
